@@ -764,6 +764,13 @@ class WaveShareNmea2000Gateway(AsyncIOClient):
             packet = self._buffer[start : start + 20]
             self.logger.debug(f"single packet: {packet.hex()}")
 
+            if calculate_canbus_checksum(packet) != packet[19]:
+                # Not a packet: line noise that happens to contain the marker, or a packet that lost bytes.
+                # Skip only the marker and look again, so that an intact packet right behind it is not swallowed
+                self.logger.debug("checksum mismatch, resynchronising")
+                self._buffer = self._buffer[start + 2:]
+                continue
+
             # Process the packet
             message = None
             try:
